@@ -195,11 +195,12 @@ impl SymmetricState {
         h: [u8; MAXHASHLEN],
         ck: [u8; MAXHASHLEN],
         has_key: bool,
+        cipher_key: [u8; CIPHERKEYLEN],
     ) -> Self {
         SymmetricState {
             cipherstate,
             hasher,
-            inner: SymmetricStateData { h, ck, has_key, ..SymmetricStateData::default() },
+            inner: SymmetricStateData { h, ck, has_key, cipher_key },
         }
     }
 
